@@ -1,4 +1,5 @@
 import EupsModel.Lemmas.CacheInv
+import EupsModel.Lemmas.CacheSync
 /-! C07 — answers served from the product cache equal the answers in the database files.
 Property theorems only; model `Model/Cache.lean` over `Model/Db.lean`, lemmas in `Lemmas/Agree.lean`
 (commutation) and `Lemmas/CacheInv.lean` (the invariant and its preservation).
@@ -236,5 +237,43 @@ example :
 example :
     let w := runHistory (World.init 1 dirs) [.run 1 (declareCmd L [49]) none, .run 1 (declareCmd L [50]) (some 1)]
     (w.caches.all fun cf => !(accepts w cf)) = true ∧ (viaCache w 1 L).hasDecl 0 p [50] L = true := by decide
+
+/-! ## two `ProductStack` objects alive in one process (round 3; `Model/CacheSync.lean`) -/
+
+/-- **The staleness test between live instances keeps the cache complete.**  From any world as single-process
+histories leave it (`Start`: a cache file that is not older than the database is complete — `C07_cache_inv`), whichever
+way each of the two instances is filled (the user's file, the stack-wide cache inside ups_db/, the database), and for
+EVERY interleaving of their write-throughs (`Database` mutation, `ensureInSync`, write-through, `save`), their
+`ensureInSync` calls and the commands of other well-behaved processes of the user — as long as nobody deletes the cache
+file under them —: a cache file that is not older than the database holds the whole database.  So whatever a later
+process accepts is complete.  With the rule of the tree before c9cb3dd this is false (next theorem). -/
+theorem C07_live_instances_safe (s : CacheSync.St) (h : CacheSync.Start s) (sysOk : Bool) (evs : List CacheSync.Ev)
+    (hnd : ∀ e ∈ evs, e ≠ .delete) :
+    CacheSync.Safe (CacheSync.run true (CacheSync.load true sysOk (CacheSync.load true sysOk s false) true) evs) :=
+  ((CacheSync.load2_inv h sysOk).run evs hnd).safe
+
+/-- non-vacuity: the scenarios the check enumerates start from such a world -/
+example : CacheSync.Start ⟨4, List.range 2, 2, none, ⟨none, []⟩, ⟨none, []⟩⟩ :=
+  ⟨(by intro f hf; cases hf), (by decide), (by intro f hf; cases hf)⟩
+example : CacheSync.Start ⟨4, List.range 2, 2, some ⟨1, List.range 1⟩, ⟨none, []⟩, ⟨none, []⟩⟩ :=
+  ⟨(by intro f hf hfr; cases hf; exact absurd hfr (by decide)), (by decide), (by intro f hf; cases hf; decide)⟩
+
+/-- **D60 (fixed c9cb3dd), the rule before the repair.**  Both instances read the stack-wide cache (no file of the
+user yet); instance 1 writes, instance 0 writes: with the old rule instance 0 does not know the file instance 1 created
+(`if file not in self.modtimes: return True`), saves its stale stack over it, and the file — newer than the database —
+lacks the change of instance 1.  With the repaired rule the same schedule ends with the complete file. -/
+theorem C07_live_instances_pinned_witness :
+    let old := CacheSync.run false (CacheSync.init false 2 0 true) [.write true, .write false]
+    let new := CacheSync.run true (CacheSync.init true 2 0 true) [.write true, .write false]
+    (CacheSync.fresh old = true ∧ old.db = [0, 1, 2, 3] ∧ old.file.map (·.content) = some [0, 1, 3]) ∧
+    (CacheSync.fresh new = true ∧ new.file.map (·.content) = some [0, 1, 2, 3]) := by decide
+
+/-- **D61 (open): the hypothesis "nobody deletes the cache file under a live instance" is needed**, also with the
+repaired rule: instance 1 writes, the file is deleted (`eups admin clearCache` elsewhere), instance 0 writes:
+`FileNotFoundError` counts as "in sync", the stale stack is written through and saved as a fresh cache file that lacks
+the change of instance 1. -/
+theorem C07_live_instances_delete_witness :
+    let s := CacheSync.run true (CacheSync.init true 2 2 false) [.write true, .delete, .write false]
+    CacheSync.fresh s = true ∧ s.db = [0, 1, 2, 3] ∧ s.file.map (·.content) = some [0, 1, 3] := by decide
 
 end EupsModel.C07
